@@ -236,6 +236,15 @@ def gen_pass(tier):
     add([CALL(1, 6)], [ACC(2), DR(0)], [TA, TC(8)], sched=(3, 3, 1, 1))
     add([THROW(1), IDLE], [TA], [STOP(1)])
     add([CALL(1, 2)], [STOP(2), ACC(2)], [STOP(1), TC(9)])
+    # cancellation of a parked operation racing with the counterpart that claims it (window claim -> resume_)
+    add([THROW(1)], [ACC(2)], [STOP(1)])
+    add([THROW(1)], [TA], [STOP(1)])
+    add([CALL(1, 4)], [ACC(2)], [STOP(1)])
+    add([CALL(1, 4)], [TA], [STOP(1)])
+    add([ACC(2)], [CALL(1, 5)], [STOP(2)])
+    add([ACC(2)], [THROW(1)], [STOP(2)])
+    add([ACC(2)], [TC(6)], [STOP(2)])
+    add([THROW(1)], [ACC(2), DR(0)], [STOP(1), STOP(2)])
     t1s = [[CALL(1, 7)], [THROW(1)], [CALL(1, 7), DR(0)], [STOP(1), CALL(1, 7)], [TC(3)], [IDLE, CALL(1, 5)]]
     t2s = [[ACC(2)], [ACC(2), DR(0)], [TA], [STOP(2), ACC(2)], [TA, ACC(2)], [ACC(2), IDLE]]
     t3s = [[STOP(1)], [STOP(2)], [STOP(1), STOP(2)], [TA], [TC(4)], [TC(4), TA], [STOP(2), TC(4)], [STOP(1), TA], [IDLE]]
@@ -244,12 +253,12 @@ def gen_pass(tier):
         if any(ops.count(STOP(w)) > 1 for w in (1, 2)):
             continue
         add(t1, t2, t3, sched=(1, 2, 2, 1))
-    return thin(out, 8, 14 if tier == "quick" else 100)
+    return thin(out, 16, 12 if tier == "quick" else 100)
 
 
 def part_pass(ctx):
     scns = gen_pass(ctx.tier)
-    sp, bp, nb = tlc_behaviours(ctx, "pass", "AsyncPass", scns, "PassMon", 500 if ctx.quick else 6000)
+    sp, bp, nb = tlc_behaviours(ctx, "pass", "AsyncPass", scns, "PassMon", 3000 if ctx.quick else 6000)
     exe = build_driver(ctx, "pass")
     run_real(ctx, "pass", exe, std_runs(ctx, sp, bp, nb, len(scns), 30 if ctx.quick else 100, 10 if ctx.quick else 30),
              "event", "PassMon", scns)
